@@ -53,6 +53,10 @@ def recipe(ctx, fn, writer_names, adt):
         c = callee_of(t)
         name = last_seg(strip_generics(c['path'])) if c else ''
         import re
+        # the bytes fed to the hasher are exactly the fields: a buffer that does not start empty (zeroed(n), vec![0; n], resize, put_bytes ...) adds bytes to the recipe
+        if c and name in ('zeroed', 'from_elem', 'resize', 'put_bytes', 'set_len', 'extend_from_slice', 'put_slice') and name not in writer_names and \
+                any(m in (c.get('self_ty') or '') + strip_generics(c['path']) for m in ('BytesMut', 'vec::', 'Vec<u8>')):
+            out.append(['<buffer>', name, ''])
         mput = re.match(r'put_([ui](?:8|16|32|64|128))(_le|_ne)?$', name) if 'put_slice' in writer_names else None
         if not c or (name not in writer_names and not mput) or len(t['args']) < 2:
             continue
@@ -369,6 +373,8 @@ def run(ctx, tier):
     results += c05.reader_writer_tables(ctx, rule='C15.reader-writer-tables')
     import c02
     results += c02.reload_rule(ctx, rule='C15.reload')
+    # files written by the current code conform to the layout: the slot number stored in a header image is the slot the page is written to (computed, not copied)
+    results += c02.alternate_rule(ctx, rule='C15.alternate')
     return dict(
         results=results, stats=dict(ctx.stats),
         explanation=(
